@@ -618,7 +618,7 @@ def stamp_cases(findings, tasks):
 
 def run(tier, seed):
     import runner
-    b = BUDGET[tier]
+    b, tier = runner.budget(BUDGET, tier)
     tasks = [(seed, i, b["max_states"], b["walk_len"], "random") for i in range(b["n_random"])]
     tasks += [(seed, 100000 + i, b["bench_states"], b["bench_walk"], k)
               for i, k in enumerate(b["bench"])]
